@@ -186,6 +186,19 @@ CLAIMED["C07"] = dict(
     technique="writer/schema key-set agreement, CFG edge-dominance and statement-order (must-pass-through) checks",
     design="3/C07")
 
+CLAIMED["C11"] = dict(
+    text="Explicit-raise escape analysis of the FlowIR loader: the classes that can leave "
+         "FlowIRExperimentConfiguration.__init__/parametrize (over the self-method call graph, minus enclosing handlers) "
+         "are only the invalid/missing-configuration errors; helpers are total-catch; _try_report_errors raises whenever "
+         "validation is on and an error was recorded; __init__ always ends there. Plus a fault->detector table (unknown "
+         "key, wrong type, dangling reference, duplicates, cycle, undefined variable: detector exists and is reachable "
+         "from the loader), defaults are admitted by the closed schema, and every component is resolved inside a "
+         "recording catch-all. Implicit exceptions outside try blocks and front-end work before this loader are outside "
+         "the model; acceptance => usability for all documents is not decided.",
+    technique="explicit-raise escape analysis over a name-resolved call graph, call-graph reachability of detectors, "
+              "table agreement, CFG must-pass-through",
+    design="3/C11")
+
 NOT_APPLICABLE = {
     "C20": "arithmetic over floating-point stage weights (sums, int(w*1000) truncation, fallback split) for every "
            "stage count: no structural clause is a necessary condition; needs numeric exploration or a solver, i.e. "
